@@ -29,6 +29,16 @@ structure ValidBallots (C : Crypto) (lb : LookBack) (seed step : Nat) (pl : Payl
   cred : ∀ p ∈ S, CredOK C p.1 seed step pl.index p.2.proof p.2.votes t lb.chamberStake
   signed : ∀ p ∈ S, SignedBy p.1 pl agg
 
+/-- the same for the secp256k1 configuration (EnableBls = false): every ballot carries its own ECDSA signature,
+which recovers to the member's key over exactly this payload -/
+structure ValidBallotsSecp (C : Crypto) (lb : LookBack) (seed step : Nat) (pl : Payload) (t : Nat)
+    (votes : List Vote) (S : List (Val × Vote)) : Prop where
+  distinct : (S.map (·.1.addr)).Nodup
+  member : ∀ p ∈ S, p.1 ∈ lb.vals ∧ p.2 ∈ votes
+  entitled : ∀ p ∈ S, Entitled p.1
+  cred : ∀ p ∈ S, CredOK C p.1 seed step pl.index p.2.proof p.2.votes t lb.chamberStake
+  signed : ∀ p ∈ S, ∃ k, p.1.mainKey = some k ∧ p.2.sig = some (k, pl)
+
 /-- total claimed (= credentialed) seats of a ballot set, as a natural number (no wrap-around) -/
 def weight (S : List (Val × Vote)) : Nat := (S.map (·.2.votes)).sum
 
